@@ -222,6 +222,21 @@ def case_strategy(draw, max_ops=6):
     # sometimes start from a slice of a variable (VarSub / DecRuleSub)
     nops = draw(st.integers(1, max_ops))
     ops_used = []
+    if typ == 'B' and node[0] == 'var' and shape and shape[0] >= 2 and draw(st.integers(0, 1)) == 0:
+        # the rule itself read through an index that permutes its entries (reversed / stepped-back slice, shuffled list)
+        d = shape[0]
+        if draw(st.booleans()):
+            spec = [{'t': 'slice', 'v': [None, None, draw(st.sampled_from([-1, -1, -2]))], 'bare': len(shape) == 1}]
+        else:
+            spec = [{'t': 'list', 'v': list(draw(st.permutations(list(range(d))))), 'bare': len(shape) == 1}]
+        if len(shape) == 2 and draw(st.booleans()):
+            spec.append({'t': 'int', 'v': draw(st.integers(0, shape[1] - 1))})
+        try:
+            res = _shadow(shape)[_np_index(spec)]
+            node = ['idx', node, spec]
+            shape = list(res.shape)
+        except (ValueError, IndexError):
+            pass
     for _ in range(nops):
         sh = _shadow(shape)
         saved = (node, list(shape), typ)
@@ -407,6 +422,10 @@ def case_strategy(draw, max_ops=6):
             node, shape, typ = saved
             continue
     masks = {}
+    if any(v['kind'] == 'ldr' for v in g.vars) and not any(v['kind'] == 'rvar' for v in g.vars) and draw(st.integers(0, 3)) > 0:
+        # a decision rule without any random variable in the model cannot adapt: declare one (not used by the expression) so
+        # that indexing / reshaping the rule itself is exercised with a dependence pattern
+        g.new_var('rvar', [draw(st.integers(1, 3))])
     for i, v in enumerate(g.vars):
         if v['kind'] == 'ldr':
             size = int(np.prod(v['shape'])) if v['shape'] else 1
